@@ -62,7 +62,7 @@ Definition refs_l (f : func) : list nat :=
 (** globals referenced by [f] or by anything it (transitively) calls, given the table for the
     functions before it *)
 Definition refs_step (tbl : list (list nat)) (f : func) : list nat :=
-  refs_l f ++ flat_map (fun c => nth c tbl []) (callees_l f).
+  nodup Nat.eq_dec (refs_l f ++ flat_map (fun c => nth c tbl []) (callees_l f)).   (* as a set: deep call chains stay small *)
 
 Definition refs_table (fs : list func) : list (list nat) :=
   fold_left (fun tbl f => tbl ++ [refs_step tbl f]) fs [].
